@@ -646,5 +646,5 @@ func TestC13(t *testing.T) {
 		all = append(all, pcall{Op: op, Seed: uint64(100*hx.Shard() + i), N: 7 + i, K: (13*i + hx.Shard()) & 255, Flag: i%2 == 0})
 	}
 	c13Part.EvalCase(s, c13Case{Calls: all, Probe: []int{3, len(all) - 1}})
-	c13Part.Run(s, hx.PerShard(hx.Pick(320, 6400)))
+	c13Part.Run(s, hx.PerShard(hx.Pick(640, 9600)))
 }
